@@ -229,7 +229,7 @@ def _n3(run: Run, w: World) -> None:
     run.rule("N3", "clone_as_symbol/function/indexed construct their class with source.dimension, display names and assumptions defaulting to the source's, a requested subscript on both names")
     m = run.src.need(SYMS)
     D = Dim.of(mass=1, length=2, time=-2)
-    spec = {"clone_as_symbol": ("Symbol", 1, "dimension", True, []), "clone_as_function": ("Function", 2, "dimension", True, ["ARGS"]), "clone_as_indexed": ("IndexedSymbol", 2, "dimension", False, ["IDX"])}
+    spec = {"clone_as_symbol": ("Symbol", 1, "dimension", True, []), "clone_as_function": ("Function", 2, "dimension", True, ["ARGS"]), "clone_as_indexed": ("IndexedSymbol", 2, "dimension", True, ["IDX"])}
     for name, (cls, dim_idx, dim_kw, has_sub, extra) in spec.items():
         fdef = next((x for x in m.tree.body if isinstance(x, ast.FunctionDef) and x.name == name), None)
         run.require(fdef is not None, f"{name} not found")
@@ -238,7 +238,9 @@ def _n3(run: Run, w: World) -> None:
         if takes_sub:
             variants += [("subscript", {"subscript": "SUB"}), ("subscript and names", {"subscript": "SUB", "display_symbol": "CODE", "display_latex": "LATEX"})]
         elif has_sub:
-            run.violate("N3", f"{SYMS}:{name}:subscript-parameter", m, fdef, f"{name} no longer takes a subscript")
+            run.violate("N3", f"{SYMS}:{name}:subscript-parameter", m, fdef,
+                        f"{name} has no `subscript` parameter: {name}(source, subscript='1') is accepted, the keyword falls into **assumptions (SymPy drops the unknown key), the clone "
+                        f"is named like its source, and because assumptions were 'passed' the source's own assumptions are discarded")
         for label, kwargs in variants:
             run.ob("N3", f"{name}:{label}")
             source = Obj("Symbol", {"display_name": "SRC", "display_latex": "SRCTEX", "dimension": D, "assumptions0": {"real": True, "commutative": True}}, "source")
@@ -430,6 +432,31 @@ def _n5(run: Run, w: World) -> None:
                         f"(the library's own idiom for indexed sums) then prints SYM244[1] + SYM244[2] and loses the declared dimension. Define doit() to return self (or a func that does)")
 
 
+def _n6(run: Run, w: World) -> None:
+    """Python hands the same call arguments to __new__ and __init__. A keyword that __init__ names but __new__ does not falls into __new__'s **assumptions and
+    becomes a SymPy assumption of the object (`dimension: True`); the clone helpers forward source.assumptions0 together with source.dimension, so the constructor
+    then receives the keyword twice and the clone raises TypeError."""
+    run.rule("N6", "for the classes the clone helpers construct, every keyword parameter of __init__ is a parameter of __new__ under the same name (it must not leak into the SymPy assumptions)")
+    m = run.src.need(SYMS)
+    for cname in ("Symbol", "Function", "IndexedSymbol"):
+        cls = next((c for c in m.tree.body if isinstance(c, ast.ClassDef) and c.name == cname), None)
+        run.require(cls is not None, f"class {cname} not found")
+        fs = {f_.name: f_ for f_ in cls.body if isinstance(f_, ast.FunctionDef)}
+        if "__new__" not in fs or "__init__" not in fs:
+            continue
+        nw, it = fs["__new__"], fs["__init__"]
+        if nw.args.kwarg is None:
+            continue  # an unknown keyword is a TypeError at once, nothing can leak
+        new_names = {a.arg for a in nw.args.posonlyargs + nw.args.args + nw.args.kwonlyargs}
+        for a in (it.args.args + it.args.kwonlyargs)[1:]:
+            run.ob("N6", f"{cname}:{a.arg}")
+            if a.arg not in new_names:
+                run.violate("N6", f"{SYMS}:{cname}:{a.arg}", m, nw,
+                            f"{cname}.__init__ takes `{a.arg}` but {cname}.__new__ does not name it: `{cname}(..., {a.arg}=...)` passes it to __new__'s **{nw.args.kwarg.arg}, "
+                            f"SymPy stores it as the assumption `{a.arg}: True`, and clone_as_symbol/function/indexed of such a symbol raise TypeError (got multiple values for "
+                            f"argument '{a.arg}') because they forward source.assumptions0")
+
+
 def check(run: Run) -> None:
     w = World(run.src)
     prefixes = _n1(run, w)
@@ -437,3 +464,4 @@ def check(run: Run) -> None:
     _n3(run, w)
     _n4(run, w)
     _n5(run, w)
+    _n6(run, w)
